@@ -103,3 +103,30 @@ def tainted_store_exists(lib, obj, F, store_inst, summary_of):
             if rs and any(x in rs for x in regs):
                 n += 1
     return (True, n > 0, "%d store(s) of a value derived from %s" % (n, "/".join(x.lower() for x in regs)))
+
+
+def narrow_bit_length(F, store_inst):
+    """The *8 / <<3 that turns the byte length into the bit length on the def chain of the stored value, when it is
+    done in fewer than 64 bits: returns that instruction, else None."""
+    seen = set()
+    stack = [store_inst.ops[0]]
+    while stack:
+        v = stack.pop()
+        I = F.resolve(v)
+        if not isinstance(I, ir.Inst) or I.id in seen:
+            continue
+        seen.add(I.id)
+        if I.op in ("mul", "shl") and len(I.ops) == 2:
+            k = F.const_int(I.ops[1])
+            k0 = F.const_int(I.ops[0])
+            by8 = (I.op == "mul" and (k == 8 or k0 == 8)) or (I.op == "shl" and k == 3)
+            if by8 and I.ty in ("i32", "i16", "i8"):
+                e = ir.expr_str(F, {"k": "i", "id": I.id})
+                if re.search(r"total_length|arg:(len|total_len|length)\b", e):
+                    return I
+        if I.op in ("load", "call", "phi") and I.op != "phi":
+            continue
+        ops = I.ops if I.incoming is None else [x["v"] for x in I.incoming]
+        for o in ops:
+            stack.append(o)
+    return None
